@@ -493,6 +493,24 @@ def stream_matrix(c):
         for name, data in streams:
             if name in FILE_BACKED:
                 jobs.append((tr.Tool(base.name, base.args, data, base.files, base.outputs, base.kind, base.label), name + "@file"))
+    # field-selecting variants on streams whose lines lack the selected fields
+    fsel = [("dedupe", ["-f", "2"], []), ("dedupe", ["-f", "1,3-", "-d", " "], []), ("shard", ["-f", "2-"], ["{W}/f1", "{W}/f2"]),
+            ("simple_cleaning", ["-f", "2", "--min-chars", "1"], []), ("cache", ["-k", "2"], ["cat"]), ("cache", ["-k", "2-3", "-t", " "], ["cat"])]
+    keep = {"few-fields", "many-fields", "tabs", "empty", "newline", "nul-in-line", "bad-utf8-word", "random-lines-0", "spaces", "crlf", "no-final-newline", "tab-numbers"}
+    for name, opts, tail in fsel:
+        for sname, data in gen:
+            if c.tier == "thorough" or sname in keep:
+                if len(data) <= 20000:
+                    jobs.append((tr.Tool(name, opts + tail, data, label="%s %s" % (name, " ".join(opts))), sname))
+    # model / alignment files made of garbage
+    for i in range(2 if c.tier == "quick" else 12):
+        junk = lambda n: bytes(rng.choice(b"ab \n\t(){}|-0123456789\xff") for _ in range(n))
+        jobs.append((tr.Tool("apply_case", ["{W}/align", "{W}/src", "{W}/tgt", "{W}/model"], b"",
+                             {"align": junk(80), "src": junk(40), "tgt": junk(40), "model": junk(60)}, label="apply_case-junk-files"), "options"))
+        jobs.append((tr.Tool("train_case", ["{W}/align", "{W}/src", "{W}/tgt"], b"", {"align": junk(120), "src": junk(40), "tgt": junk(40)}, label="train_case-junk-files"), "options"))
+        jobs.append((tr.Tool("truecase", ["--model", "{W}/model"], junk(100), {"model": junk(120)}, label="truecase-junk-model"), "options"))
+        jobs.append((tr.Tool("subtract_lines", ["{W}/sub"], junk(100), {"sub": junk(100)}, label="subtract_lines-junk"), "options"))
+        jobs.append((tr.Tool("commoncrawl_dedupe", ["{W}/rm"], junk(100), {"rm": junk(100)}, label="commoncrawl_dedupe-junk"), "options"))
     for t in option_cases():
         jobs.append((t, "options"))
     # every option of the option-taking tools with every hostile value
